@@ -14,3 +14,10 @@ impl SequenceIdGenerator {
         id
     }
 }
+
+#[cfg(statime_verif)]
+impl SequenceIdGenerator {
+    pub(crate) fn verif_peek(&self) -> u16 {
+        self.current
+    }
+}
